@@ -7,6 +7,7 @@
  */
 
 pub use crate::auth::{JwtClaims, Privileges, pattern_matches};
+pub use crate::leader_follower::{ClientWriteCommand, LeaderSyncMessage, StateSync};
 pub use crate::store::{PersistedStore, Store, StoreError, StoreNode};
 pub use crate::subscribers::{EventSender, LsSubscriber, Subscriber, Subscribers};
 pub use crate::worterbuch::{PStateAggregator, Worterbuch};
